@@ -1,6 +1,7 @@
 import OxiModel.GeomProofs
 import OxiModel.ScanProofs
 import OxiModel.Interlace
+import OxiModel.DepthProofs
 /-
   C18 — Adam7 geometry is exact for every image size (sizes and row lengths).
 -/
@@ -306,5 +307,158 @@ theorem adam7Order_each_once (w h x y : Nat) (hx : x < w) (hy : y < h) :
   generalize passOf (y % 8) (x % 8) = p at hp
   have : p = 0 ∨ p = 1 ∨ p = 2 ∨ p = 3 ∨ p = 4 ∨ p = 5 ∨ p = 6 := by omega
   rcases this with rfl | rfl | rfl | rfl | rfl | rfl | rfl <;> decide
+
+/-! ### `interlace_image` writes the specification's arrangement (byte pixels) -/
+section interlaceBytes
+open OxiModel.Spec
+
+theorem byteOfBits_bitsOfByte_aux : ∀ n < 256, byteOfBits (bitsOfByte (UInt8.ofNat n)) = UInt8.ofNat n := by
+  decide +kernel
+
+theorem byteOfBits_bitsOfByte (b : UInt8) : byteOfBits (bitsOfByte b) = b := by
+  have := byteOfBits_bitsOfByte_aux b.toNat b.toNat_lt
+  rwa [UInt8.ofNat_toNat] at this
+
+theorem bitsOfByte_length (b : UInt8) : (bitsOfByte b).length = 8 := rfl
+
+/-- packing the bits of whole bytes gives the bytes back -/
+theorem bytesOfBits_bitsOf (bs : Bytes) : bytesOfBits (bitsOf bs) = bs := by
+  induction bs with
+  | nil => rfl
+  | cons b bs ih =>
+    unfold bytesOfBits bitsOf at *
+    simp only [List.flatMap_cons]
+    rw [chunks_cons 8 (by decide) _ (by simp [bitsOfByte])]
+    have h1 : (bitsOfByte b ++ bs.flatMap bitsOfByte).take 8 = bitsOfByte b := List.take_left' (bitsOfByte_length b)
+    have h2 : (bitsOfByte b ++ bs.flatMap bitsOfByte).drop 8 = bs.flatMap bitsOfByte := List.drop_left' (bitsOfByte_length b)
+    rw [h1, h2, List.map_cons, byteOfBits_bitsOfByte, ih]
+
+/-- keeping the elements of equal-sized blocks by a test on the block number keeps whole blocks -/
+theorem filter_blocks {α} (s : Nat) (hs : 0 < s) (P : Nat → Bool) :
+    ∀ (blocks : List (List α)) (off : Nat), (∀ b ∈ blocks, b.length = s) →
+      ((blocks.flatten.zipIdx (off * s)).filter (fun p => P (p.2 / s))).map (·.1) =
+        ((blocks.zipIdx off).filter (fun p => P p.2)).flatMap (·.1) := by
+  intro blocks
+  induction blocks with
+  | nil => intro off _; rfl
+  | cons b bs ih =>
+    intro off hlen
+    have hb : b.length = s := hlen b List.mem_cons_self
+    simp only [List.flatten_cons, List.zipIdx_cons]
+    rw [List.zipIdx_append, List.filter_append, List.map_append]
+    have hrest := ih (off + 1) (fun x hx => hlen x (List.mem_cons_of_mem _ hx))
+    rw [hb, show off * s + s = (off + 1) * s by rw [Nat.add_mul, Nat.one_mul], hrest]
+    -- the first block: every index divides to `off`
+    have hfirst : ((b.zipIdx (off * s)).filter (fun p => P (p.2 / s))).map (·.1) = if P off then b else [] := by
+      have hall : ∀ p ∈ b.zipIdx (off * s), p.2 / s = off := by
+        intro p hp
+        obtain ⟨h1, h2, _⟩ := List.mem_zipIdx hp
+        rw [hb] at h2
+        rw [Nat.div_eq_iff hs]
+        constructor
+        · exact h1
+        · omega
+      cases hP : P off
+      · simp only [Bool.false_eq_true, if_false]
+        rw [List.filter_eq_nil_iff.mpr (fun p hp => by rw [hall p hp, hP]; simp)]
+        rfl
+      · simp only [if_true]
+        rw [List.filter_eq_self.mpr (fun p hp => by rw [hall p hp, hP])]
+        simp
+    rw [hfirst]
+    cases hP : P off
+    · simp [List.filter_cons, hP]
+    · simp [List.filter_cons, hP]
+
+theorem bitsOf_length (bs : Bytes) : (bitsOf bs).length = 8 * bs.length := by
+  induction bs with
+  | nil => rfl
+  | cons b bs ih =>
+    simp only [bitsOf, List.flatMap_cons, List.length_append, List.length_cons] at *
+    rw [ih, bitsOfByte_length]; omega
+
+theorem bitsOf_flatten (ps : List Bytes) : bitsOf ps.flatten = (ps.map bitsOf).flatten := by
+  induction ps with
+  | nil => rfl
+  | cons p ps ih =>
+    simp only [List.flatten_cons, List.map_cons, bitsOf, List.flatMap_append] at *
+    rw [ih]
+
+/-- the pixels of one row that belong to pass `k`, in order (the specification's selection: column
+    residue against the pass table, through `passOf`) -/
+def rowPassPixels (c : Nat) (k rowIdx : Nat) (line : Bytes) : Bytes :=
+  ((chunksExact c line).zipIdx.filter fun p => decide (passOf (rowIdx % 8) (p.2 % 8) = k)).flatMap (·.1)
+
+/-- **One source row of `interlace_image`, byte pixels**: the bits it selects for pass `k`, packed into
+    bytes, are exactly the row's pixels whose column is on the pass - whole pixels, in order. -/
+theorem interlace_row_bytes (w c rowIdx k : Nat) (hc : 0 < c) (line : Bytes) (hl : line.length = w * c) :
+    bytesOfBits (lineBitsForPass w (8 * c) rowIdx k line) = rowPassPixels c k rowIdx line := by
+  unfold lineBitsForPass rowPassPixels
+  have htake : (bitsOf line).take (w * (8 * c)) = bitsOf line := by
+    apply List.take_of_length_le
+    rw [bitsOf_length, hl]
+    exact Nat.le_of_eq (by rw [Nat.mul_comm w c, Nat.mul_comm w (8 * c), Nat.mul_assoc])
+  rw [htake]
+  obtain ⟨hfl, hpl⟩ := flatten_chunksExact c hc w line hl
+  have hb : 0 < 8 * c := by omega
+  have hblocks : ∀ b ∈ (chunksExact c line).map bitsOf, b.length = 8 * c := by
+    intro b hb'
+    obtain ⟨px, hpx, rfl⟩ := List.mem_map.mp hb'
+    rw [bitsOf_length, hpl px hpx]
+  have key := filter_blocks (8 * c) hb (fun m => decide (passOf (rowIdx % 8) (m % 8) = k))
+    ((chunksExact c line).map bitsOf) 0 hblocks
+  rw [Nat.zero_mul, ← bitsOf_flatten, hfl] at key
+  have hlhs : ((bitsOf line).zipIdx.filter fun x => decide (passOf (rowIdx % 8) (x.2 / (8 * c) % 8) = k)).map (·.1) =
+      ((bitsOf line).zipIdx.filter fun p => decide (passOf (rowIdx % 8) (p.2 / (8 * c) % 8) = k)).map (·.1) := rfl
+  have : (((bitsOf line).zipIdx.filter fun x : Bool × Nat =>
+      match x with | (_, i) => decide (passOf (rowIdx % 8) (i / (8 * c) % 8) = k)).map (·.1)) =
+      ((bitsOf line).zipIdx.filter fun p => decide (passOf (rowIdx % 8) (p.2 / (8 * c) % 8) = k)).map (·.1) := rfl
+  rw [this, key, List.zipIdx_map, List.filter_map, List.flatMap_map]
+  -- bits of the selected pixels, packed
+  have hsel : ∀ (l : List (Bytes × Nat)), (l.flatMap fun p => (Prod.map bitsOf id p).1) = bitsOf (l.flatMap (·.1)) := by
+    intro l
+    induction l with
+    | nil => rfl
+    | cons a l ih =>
+      simp only [List.flatMap_cons, Prod.map, id] at ih ⊢
+      rw [ih]
+      simp [bitsOf, List.flatMap_append]
+  have hf : ((chunksExact c line).zipIdx.filter ((fun p : List Bool × Nat => decide (passOf (rowIdx % 8) (p.2 % 8) = k)) ∘ Prod.map bitsOf id)) =
+      ((chunksExact c line).zipIdx.filter fun p => decide (passOf (rowIdx % 8) (p.2 % 8) = k)) := rfl
+  rw [hf, hsel, bytesOfBits_bitsOf]
+
+theorem flatMap_congr_of_mem {α β} (l : List α) (f g : α → List β) (h : ∀ a ∈ l, f a = g a) :
+    l.flatMap f = l.flatMap g := by
+  induction l with
+  | nil => rfl
+  | cons a l ih =>
+    simp only [List.flatMap_cons]
+    rw [h a List.mem_cons_self, ih (fun b hb => h b (List.mem_cons_of_mem _ hb))]
+
+/-- **`interlace_image` writes the specification's Adam7 arrangement** (pixels of whole bytes: 8- and
+    16-bit samples, every colour type): pass after pass, and within a pass row after row, exactly the
+    pixels whose row and column are on the pass's lattice, whole and in order - for every image size. -/
+theorem interlace_is_spec_bytes (i : Img) (c : Nat) (hc : 0 < c) (hbpp : i.ihdr.bpp = 8 * c)
+    (lines : List (UInt8 × Bytes × Option Nat × Nat)) (hl : i.scanLines false = some lines)
+    (hrows : ∀ l ∈ lines, l.2.1.length = i.ihdr.width * c) :
+    interlaceData i = some ((List.range 7).flatMap fun k =>
+      lines.zipIdx.flatMap fun p => rowPassPixels c k p.2 p.1.2.1) := by
+  unfold interlaceData
+  rw [hl]
+  simp only [hbpp, Option.some.injEq]
+  apply flatMap_congr_of_mem
+  intro k _
+  apply flatMap_congr_of_mem
+  intro p hp
+  obtain ⟨⟨f, line, pass, px⟩, y⟩ := p
+  have hmem : (f, line, pass, px) ∈ lines := by
+    have := List.mem_zipIdx hp
+    -- the element of a zipIdx pair is an element of the list
+    obtain ⟨_, h2, h3⟩ := this
+    simp only [Nat.zero_add] at h2 h3
+    rw [h3]; exact List.getElem_mem _
+  exact interlace_row_bytes i.ihdr.width c y k hc line (hrows _ hmem)
+
+end interlaceBytes
 
 end OxiModel.C18
